@@ -50,6 +50,8 @@ run_directed = directed.run
 
 def cases(tier, rng):
     thorough = tier == "thorough"
+    for c in directed.invariants_while_another_thread_reports_cases():
+        yield "directed-invariants-while-another-thread-reports", c
     for c in directed.concurrent_constructors_without_init_cases():
         yield "directed-concurrent-constructors-without-init", c
     for c in directed.call_while_constructor_runs_cases():
